@@ -10,9 +10,11 @@ where it does not hold (values below the 1e-5 clamp, very wide dynamic ranges). 
 `torch.rand` are recorded while `sample` runs and handed to the model as exact rationals.
 
 Source translation (`pre_gate`, before the Lean gate): `py2lean_segtree.py` translates the source text
-of `agilerl/components/segment_tree.py` of the tree under test into `lean/Gen/SegTreeGen.lean`;
-`Proofs/SegTreeGenEq.lean` proves every generated definition equal to the model function and
-`Props/C11.lean` restates the tree theorems over the generated definitions
+of `agilerl/components/segment_tree.py` of the tree under test into `lean/Gen/SegTreeGen.lean`, and
+`py2lean_per.py` the class `PrioritizedReplayBuffer` of `agilerl/components/replay_buffer.py` into
+`lean/Gen/PerGen.lean` (calling the generated tree functions); `Proofs/SegTreeGenEq.lean` /
+`Proofs/PerGenEq.lean` prove every generated definition equal to the model function and
+`Props/C11.lean` restates the tree and buffer theorems over the generated definitions
 (`C11_source_translation_*`).  If the translator rejects the source or those proofs stop checking,
 that is a gate problem naming the broken equality; the correspondence / oracle below then supply the
 failing input if there is one (else the VIOLATION line ends with no-failing-input-found).
@@ -35,8 +37,10 @@ from fractions import Fraction
 import numpy as np
 import torch
 
+import common
+import py2lean_per
 import py2lean_segtree
-from common import LEAN_DIR, REPO, ROOT, Check, InfraError, ddmin, frac
+from common import ROOT, Check, InfraError, ddmin, frac
 
 FINDING_ID = "C11-retrieve-float-edge"
 EDGE_LEAVES = [0.2054852577007612, 0.11135532569665556, 0.5699993338763802]
@@ -620,8 +624,15 @@ def float_sample_suite(chk: Check, n_cases: int) -> int:
         cs = rng.randrange(1 << 30)
         torch.manual_seed(cs)
         buf = PrioritizedReplayBuffer(max_size=m, alpha=alpha)
-        for j in range(k):
-            buf.add(make_td([j + 1]))
+        try:
+            for j in range(k):
+                buf.add(make_td([j + 1]))
+        except Exception as e:  # noqa: BLE001
+            bad += 1
+            chk.case(["float-sample-add", m, alpha, k], nontrivial=k > m, tags=["float-sample"])
+            chk.violation(f"add of single transitions raised {type(e).__name__} after {j} additions (max_size {m})",
+                          {"max_size": m, "alpha": 1, "seed": cs, "ops": [["add", 1]] * (j + 1)})
+            continue
         n = len(buf)
         style = rng.choice(["uniform", "wide", "equal", "thirds"])
         pr = []
@@ -680,55 +691,17 @@ def probe_float_edge(chk: Check) -> None:
 
 
 # ----------------------------------------------------------------------------- source translation
-TRANSLATION_MSG = "source translation of segment_tree.py no longer matches the model: "
-
-
 def pre_gate(chk: Check) -> None:
-    """Regenerate lean/Gen/SegTreeGen.lean from the source text of the tree under test (before the
-    Lean gate) and re-check the equalities `generated definition = model function`
-    (Proofs/SegTreeGenEq.lean) and the theorems over the generated definitions (Props/C11.lean).
-    A failure is a gate problem; the correspondence and the oracle then look for the failing input."""
-    import hashlib
-    import re
-    import subprocess
-    out = LEAN_DIR / "Gen" / "SegTreeGen.lean"
-    info = {"source": str(REPO / py2lean_segtree.REL_SOURCE)}
-    chk.corr["source_translation"] = info
-    try:
-        text, sha = py2lean_segtree.translate(REPO)
-    except py2lean_segtree.Unsupported as e:
-        info["status"] = "translator-failed"
-        chk.gate["problems"].append(TRANSLATION_MSG + f"the translator rejects the source ({e}); "
-                                    "the equalities of Proofs/SegTreeGenEq.lean (gen_*_eq) are unchecked for this tree")
-        return
-    info["source_sha256"] = sha
-    info["translation_sha256"] = hashlib.sha256(py2lean_segtree.strip_sha(text).encode()).hexdigest()
-    info["rewritten"] = py2lean_segtree.write_if_changed(text, out)
-    b = subprocess.run(["lake", "build", "Gen.SegTreeGen", "Proofs.SegTreeGenEq", "Props.C11"], cwd=LEAN_DIR,
-                       capture_output=True, text=True)
-    if b.returncode == 0:
-        info["status"] = "equal-to-model"
-        return
-    log = b.stdout + b.stderr
-    errs = [ln.strip() for ln in log.splitlines() if re.search(r"\berror\b", ln)]
-    first = errs[0] if errs else log.strip().splitlines()[-1] if log.strip() else "lake build failed"
-    # name the equality / theorem whose proof stopped checking
-    where = None
-    m = re.search(r"(Proofs/SegTreeGenEq|Props/C11|Gen/SegTreeGen)\.lean:(\d+):", first)
-    if m:
-        f = LEAN_DIR / (m.group(1) + ".lean")
-        decl = None
-        for i, ln in enumerate(f.read_text().splitlines(), 1):
-            mm = re.match(r"\s*(?:theorem|def)\s+([\w.']+)", ln)
-            if mm:
-                if i > int(m.group(2)):
-                    break
-                decl = mm.group(1)
-        where = decl
-    info["status"] = "differs-from-model"
-    info["first_error"] = first[:400]
-    info["broken_declaration"] = where
-    chk.gate["problems"].append(TRANSLATION_MSG + (f"{where} does not check any more: " if where else "") + first[:400])
+    """Regenerate lean/Gen/SegTreeGen.lean (segment_tree.py) and lean/Gen/PerGen.lean (class
+    PrioritizedReplayBuffer of replay_buffer.py; it calls the generated tree functions) from the source text of
+    the tree under test, before the Lean gate, and re-check the equalities `generated definition = model function`
+    (Proofs/SegTreeGenEq.lean, Proofs/PerGenEq.lean) and the theorems over the generated definitions
+    (Props/C11.lean).  A failure is a gate problem naming the declaration; the correspondence and the oracle then
+    look for the failing input."""
+    common.translation_gate(chk, py2lean_segtree, "Gen/SegTreeGen.lean", ["Gen.SegTreeGen", "Proofs.SegTreeGenEq"],
+                            "array segment trees")
+    common.translation_gate(chk, py2lean_per, "Gen/PerGen.lean", ["Gen.PerGen", "Proofs.PerGenEq", "Props.C11"],
+                            "PrioritizedReplayBuffer")
 
 
 # ----------------------------------------------------------------------------- check
@@ -750,12 +723,12 @@ def run(chk: Check) -> None:
         "this per sample with a Fraction mirror and otherwise compares with relative tolerance 1e-9 (sums) / 1e-6 (weights)",
         "x ** alpha and x ** -beta are Python float pow; the model treats them as a positive resp. positive antitone function",
     ]
-    st = chk.corr.get("source_translation", {})
-    chk.notes.append(f"source translation: {st.get('status', 'not run')}; segment_tree.py sha256={st.get('source_sha256')}; "
-                     f"translation sha256={st.get('translation_sha256')}")
-    chk.trusted_extra.append("harness/py2lean_segtree.py (translator of segment_tree.py; its output is proved equal to the "
-                             "hand-written model, so an error in it can only make the gate fail, unless it mistranslates "
-                             "towards the model)")
+    for rel, st in chk.corr.get("source_translation", {}).items():
+        chk.notes.append(f"source translation {rel}: {st.get('status', 'not run')}; source sha256={st.get('source_sha256')}; "
+                         f"translation sha256={st.get('translation_sha256')}")
+    chk.trusted_extra.append("harness/py2lean_segtree.py, harness/py2lean_per.py (translators of segment_tree.py and of "
+                             "PrioritizedReplayBuffer; their output is proved equal to the hand-written model, so an error "
+                             "in them can only make the gate fail, unless it mistranslates towards the model)")
     if drive(chk, ["reset", "seg eps"])[1] != frac(1e-5):
         raise InfraError("model constant eps is not the float 1e-5")
     cases = []
